@@ -364,6 +364,12 @@ def fam_core(rng, tier):
                     steps=[open_pr(1, 'development/5.1'), {"a": "gate", "p": 1},
                            {"a": "api", "kind": "DeleteBranch", "branch": "development/4.3"},
                            {"a": "finish_queue"}], core=True))
+    # C20: after everything queued was merged the (now empty) q/ branches remain: delete_branch must still work
+    for b in ('development/4.3', 'development/5.1'):
+        out.append(dict(id='core/admin/delete-after-merge/%s' % b, world=world('B3', 'queue'),
+                        steps=[open_pr(1, 'development/4.3'), {"a": "gate", "p": 1}, {"a": "finish_queue"},
+                               {"a": "api", "kind": "DeleteBranch", "branch": b},
+                               open_pr(2, 'development/10.0'), {"a": "gate", "p": 2}, {"a": "finish_queue"}], core=True))
     # C20: newest development branch is major-only, queued work, request a new minor of that major
     out.append(dict(id='core/admin/create-minor-under-major', world=world('E3m', 'queue'),
                     steps=[{"a": "admin_script", "kind": "CreateBranch", "branch": "development/5.2", "from": None,
